@@ -15,7 +15,7 @@ claimed = {
  "C12": dict(
    text="Static lockset analysis decides, for all schedules, that every access to MapPollard's guarded fields (direct or through the Nodes/CachedLeaves "
         "interfaces) is made under the required RWMutex mode on every path, that no lock holder re-enters the lock, that each exported call is one "
-        "critical section, and that every return releases exactly what it holds. Sufficient for data-race freedom and whole-block visibility through "
+        "critical section - counting the sections of the functions it calls, so a query assembled from separately locked getters is refused - and that every return releases exactly what it holds. Sufficient for data-race freedom and whole-block visibility through "
         "the package's own code; correctness of the returned values is not decided.",
    ref="DESIGN.md 5/C12, engine E4",
    technique="static lockset / typestate dataflow over go/ssa CFGs with interprocedural lock requirements (custom analyzer)"),
@@ -24,24 +24,28 @@ claimed = {
 claimed["C13"] = dict(
    text="Static io-discipline analysis over the whole (de)serialization closure decides, for every reader chunking, truncation point and writer failure "
         "offset at once, that no stream is consumed with a short-read-unsafe Read, that every I/O or nested error leaves the function as a non-nil error "
-        "(callbacks included; only io.EOF at a record boundary may become success), that every operation's byte count reaches the returned total, and that "
-        "each restore function succeeds only behind a post-read consistency test. Round-trip equality of the restored forest is not decided.",
+        "(callbacks included; only io.EOF at a record boundary may become success), that every operation's byte count reaches the returned total, that no fallible call is deferred (its error could never reach the caller), that "
+        "each restore function succeeds only behind a post-read consistency test, and that the restored object carries the constructor's configuration. Round-trip equality of the restored forest is not decided.",
    ref="DESIGN.md 5/C13, engines E6+E2",
    technique="static error-propagation (dominance/region analysis on go/ssa), who-may-call rule for raw Read, typed-AST count accumulation, must-pass-through gate (custom analyzer)")
 
 claimed["C03"] = dict(
    text="Static path analysis decides the rejection plumbing that soundness needs and that positive-only tests cannot see: on every path, every error raised inside "
         "the verification spine reaches the caller as a non-nil error; a root is counted as matched only under an equality between a stored root and a recomputed "
-        "candidate; success is returned only behind 'candidates == matches'; the hashing core sees caller-supplied hashes only behind a length check. These are "
-        "necessary conditions of soundness, decided for all inputs; that the core recomputes the right candidates (arithmetic, hashing) is not decided.",
+        "candidate; success is returned only behind 'candidates == matches'; the hashing core sees caller-supplied hashes only behind a length check and behind a refusal of the reserved zero hash (which the core "
+        "would move up unhashed); a failing return of the core is guarded by a comparison of the claimed position with a bound computed from the leaf count; siblinghood is never "
+        "concluded from rightSib(a)==b alone; the verifiers use the positions the candidates were computed at; and on every verification path positions are used in the coordinate "
+        "system (tree layout vs the map forest's TotalRows layout) the accompanying height denotes. These are necessary conditions of soundness, decided for all inputs (five of "
+        "them fired on the pinned tree and were repaired); that the core recomputes the right candidates (arithmetic, hashing) is not decided.",
    ref="DESIGN.md 5/C03, engine E2",
-   technique="static error-propagation and guard (dominating branch edge) analysis on go/ssa; anchors resolved by role (custom analyzer)")
+   technique="static error-propagation and guard (dominating branch edge) analysis on go/ssa, anchors resolved by role; coordinate-layout abstract interpretation of the verification paths (custom analyzer)")
 
 claimed["C04"] = dict(
    text="Static path analysis over the verification closure decides, for all inputs: a rejected Stump.Update has written nothing (no state write can reach a "
         "failing return; complete for that clause); no discarded error can be non-nil (callee error condition excluded by a dominating guard on the same SSA values); "
-        "every loop matches a terminating idiom or a reviewed entry and the reviewed merge loop makes progress on every path; caller-supplied slices are indexed "
-        "only behind length tests. Termination of the two reviewed loops and absence of all index panics are not decided.",
+        "every loop matches a terminating idiom or a reviewed entry and the reviewed merge loop makes progress on every path; caller-supplied slices, and in the two "
+        "matching verifiers every computed index, are bounded by a dominating length test (a bound by another slice's length needs a dominating relation between the two lengths). "
+        "Termination of the two reviewed loops and absence of index panics in helpers are not decided.",
    ref="DESIGN.md 5/C04, engine E2",
    technique="static must-not-precede (CFG reachability with error-edge refinement), guard analysis on SSA values, loop-idiom classification on the typed AST (custom analyzer)")
 
@@ -56,40 +60,46 @@ claimed["C17"] = dict(
 claimed["C11"] = dict(
    text="Static path/dataflow rules on the verifier-state update decide structural necessary conditions of the update data: every added leaf is recorded on every "
         "path of the add loop, the previous leaf count is read before the add phase, the add lists are sorted after the last insertion, the destroyed-roots list is "
-        "computed from the pre-add state, and the delete lists come from the core run with emptied targets. The hashes and positions inside the lists are not decided.",
+        "computed from the pre-add state, the delete lists come from the core run with emptied targets, every success return hands out the filled update data, the recorded position "
+        "of an added leaf depends on the lifting call, and no node is identified by a truncated hash. The hashes and positions inside the lists are not decided.",
    ref="DESIGN.md 5/C11, engine E2",
    technique="static must-pass-through (dominance over loop latches), ordering and provenance rules on go/ssa; phases resolved by role (custom analyzer)")
 claimed["C07"] = dict(
    text="Thin claim: static rules decide the clause 'every added leaf it asked to remember' at its only source (every added leaf is listed in the update data on "
         "every path) and the wiring of the cached-proof update (each phase fed from its own UpdateData lists, positions paired with their hashes, remove before add "
-        "on the returned hashes). Positions, canonicity and retention over deletions are not decided.",
+        "on the returned hashes); the recorded position of an added leaf depends on the call that lifts it over overwritten empty roots; remembered leaves are looked up by their "
+        "full hash, never by a position computed from the leaf count or by a truncated hash. Positions, canonicity and retention over deletions are not decided.",
    ref="DESIGN.md 5/C07, engine E2",
    technique="static must-pass-through and dataflow-wiring rules on go/ssa (custom analyzer)")
 
 claimed["C10"] = dict(
    text="A who-may-insert analysis of the leaf indexes (found by type) decides for all paths that a key enters an index only as an API leaf-hash parameter, as an "
         "update of an entry a dominating lookup of the same key found, from a serialised stream, or under a flag set only at target positions — so internal-node "
-        "hashes cannot be reported as leaves — and that every success path of both Modify implementations removes every deleted hash from the index. Positions "
-        "returned and GetHash results are not decided.",
+        "hashes cannot be reported as leaves — that every success path of both Modify implementations removes every deleted hash from the index, every undone addition leaves "
+        "it, and a Modify rejected by validation has not touched it; that the indexed position is the position expression the node is stored at, follows the node on every step of a "
+        "multi-step move, and is re-translated before TotalRows is switched. Positions returned (arithmetic) and GetHash results are not decided.",
    ref="DESIGN.md 5/C10, engine E5",
-   technique="static who-may-insert rule with typed key provenance (interprocedural backward slice), guard analysis and must-pass-through removal on go/ssa (custom analyzer)")
+   technique="static who-may-insert rule with typed key provenance (interprocedural backward slice), guard analysis, must-pass-through pairing and ordering rules on go/ssa (custom analyzer)")
 claimed["C09"] = dict(
    text="Thin claim: static guard rules decide that proof material is stored in the partial forest only behind a successful verification of the same values (with "
-        "no other caller of the storing function than the documented unverified entry), and that the pruning primitive never receives a position that could be a "
-        "root. Truth of stored hashes through moves, minimality and provability of the cache are not decided.",
+        "no other caller of the storing function than the documented unverified entry), that the pruning primitive never receives a position that could be a root; that a "
+        "function switching TotalRows finishes every translation from the old TotalRows first; that Prune clears the keep flag of a leaf it un-indexes on every continuing path; that a "
+        "moved node is re-inserted on every path that deletes it; and (layout analysis) that everything stored, fetched, indexed or fed to position arithmetic is in the coordinate "
+        "system of the accompanying forest height. Truth of stored hashes through moves (arithmetic), minimality and provability of the cache are not decided.",
    ref="DESIGN.md 5/C09, engine E2",
-   technique="static dominance/guard rules and who-may-call on go/ssa (custom analyzer)")
+   technique="static dominance/guard rules, who-may-call, must-pass-through pairing rules and coordinate-layout abstract interpretation on go/ssa (custom analyzer)")
 
 claimed["C15"] = dict(
    text="Static guard and dataflow rules on the schedule generator decide, for all histories and limits, the memory bound clause: the working cache grows only "
         "under a strict len(cache) < maxMemory test on the value appended to or right after a one-element removal, and every scheduled position is read from that "
-        "cache; and the ordering clause: each row is sorted after its last append. That positions are the right insertion slots, uniqueness and completeness are not decided.",
+        "cache; the ordering clause: each row is sorted after its last append; and three conditions of completeness: recorded deletions are sorted ascending before de-twinning, "
+        "every recorded root state has the block's deletions applied, and the TTL table is recomputed before it is read. That positions are the right insertion slots and uniqueness are not decided.",
    ref="DESIGN.md 5/C15, engine E2",
-   technique="static guard analysis on SSA values, value-web dataflow and must-pass-through rules on go/ssa (custom analyzer)")
+   technique="static guard analysis on SSA values, value-web dataflow, must-pass-through rules and order-class dataflow (taint to requires-sorted sinks) on go/ssa (custom analyzer)")
 claimed["C01"] = dict(
    text="Thin claim: a static sibling cross-check of the three block-application implementations decides three clauses necessary for equal roots — delete phase "
-        "dominates add phase, the older root is the left hash input and the incoming node the right one, and merging is guarded by the root not being empty. "
-        "Root equality over all histories (position arithmetic, deletion, TotalRows) is not decided.",
+        "dominates add phase, the older root is the left hash input and the incoming node the right one, and merging is guarded by the root not being empty; and where the map forest moves a node (delete at the old position, put at the new one: growth, "
+        "move-up, undo) the put happens on every path that deletes, empty roots included. Root equality over all histories (position arithmetic, deletion, TotalRows) is not decided.",
    ref="DESIGN.md 5/C01, engine E2",
    technique="static sibling-agreement cross-check: dominance, data-dependence classification of hash inputs and guard rules on go/ssa (custom analyzer)")
 
@@ -98,7 +108,8 @@ claimed["C14"] = dict(
    text="An order-class abstract interpretation of the proof-algebra entries (and of the consumers of their results) decides, for all inputs, the clause 'targets and "
         "hashes given in any parallel order': at every site that combines positions with hashes index by index both operands are in the same order class (caller order, "
         "sorted copy, canonical proof order of the same group); no slice still in a caller-chosen order reaches a function that requires sorted input; proof restriction "
-        "succeeds only behind the coverage test and returns hashes and targets in request order. Canonicity/exactness of the combined or restricted proof and of the "
+        "succeeds only behind the coverage test and returns hashes and targets in request order; positions are used (and returned) in the coordinate system the accompanying "
+        "forest height denotes; computing missing positions never reorders the targets of the proof the caller holds. Canonicity/exactness of the combined or restricted proof and of the "
         "missing positions (position arithmetic) are not decided.",
    ref="DESIGN.md 5/C14, engine E7",
    technique="static order-class dataflow: flow- and context-sensitive abstract interpretation over go/ssa with in-place-sort tracking; pairing, taint-to-sink and output-contract rules (custom analyzer)")
@@ -112,7 +123,7 @@ claimed["C05"] = dict(
 claimed["C02"] = dict(
    text="Thin claim on both provers, decided for all inputs: the returned targets are filled index by index from the requested hashes (request order); the returned proof "
         "hashes are filled in the order of the proof positions computed from a sorted copy of those same targets (canonical order); the request order never reaches the "
-        "proof-position function; a hash that cannot be read yields an error, never a proof with a hole. That positions are true, that the proof verifies everywhere and "
+        "proof-position function; a hash that cannot be read yields an error, never a proof with a hole; the map forest returns its targets in the tree layout; a literal position is returned only for a forest that has ever had one leaf. That positions are true, that the proof verifies everywhere and "
         "that the two provers agree are not decided.",
    ref="DESIGN.md 5/C02, engines E7+E2",
    technique="static order-class dataflow with map-fill idiom recognition and output contracts; guard rule on fetch sites (custom analyzer)")
@@ -128,7 +139,7 @@ claimed["C16"] = dict(
 pending = {}  # id -> reason, for properties whose check is not built yet
 
 not_applicable = {
- "C06": "static analysis cannot reach it: equality of complete observable states across a forward and a backward run over all histories is a property of runtime values; the only structural fact (reversed phase order in Undo) is not a discriminating necessary condition (DESIGN.md section 7)",
+ "C06": "static analysis cannot reach it: equality of complete observable states across a forward and a backward run over all histories is a property of runtime values; the structural facts around undo that are checkable (undone additions leave the index, moves keep the node, undo pairs and translates consistently) are claimed under C10/C09/C05 (DESIGN.md section 7)",
  "C08": "static analysis cannot reach it: set equalities and canonicity of recomputed positions/hashes after calcPrevPosition arithmetic; nothing structural to anchor a necessary condition on (DESIGN.md section 7)",
 }
 
@@ -162,10 +173,10 @@ m = {
            "baseline_off_cmd": "cd /repo && go test -vet=off -count=1 ./...",
            "source_commits": [], "add_only": True},
  "engines": [{"name": "utxlint", "path": "/verif/checker", "serves_properties": [c["property_id"] for c in checks],
-              "kind_free_text": "repository-specific static analyzer: go/packages + go/types + go/ssa + VTA/CHA call graph; path/dominance rules, lockset, slice-ownership and order dataflow, io discipline"}],
+              "kind_free_text": "repository-specific static analyzer: go/packages + go/types + go/ssa + VTA/CHA call graph; path/dominance rules, lockset, slice-ownership abstract interpretation, flow- and context-sensitive order-class and coordinate-layout abstract interpretation, io discipline"}],
  "checks": checks,
  "not_applicable": na,
- "notes": "All checks are static (no utreexo code is executed). Six genuine defects found by the rules were repaired in /repo by 'fix:' commits; see known_findings.json and DESIGN.md section 6.",
+ "notes": "All checks are static (no utreexo code is executed). Eleven genuine defects reported by the rules on the pinned tree were repaired in /repo by 'fix:' commits; see known_findings.json and DESIGN.md section 6. 60 independently seeded defects are kept under seeded/ (DESIGN.md section 10); those a rule reports are re-applied as self-test variants by every thorough run.",
 }
 json.dump(m, open(os.path.join(V, "MANIFEST.json"), "w"), indent=1)
 print("checks:", [c["property_id"] for c in checks], "not_applicable:", [n["property_id"] for n in na])
